@@ -341,6 +341,9 @@ func init() {
 	reg("fmt.Sprintf", func(fr *frame, args []value) value {
 		f, ok := concStr(args[0])
 		if !ok {
+			if len(args[1].([]value)) == 0 {
+				return args[0]
+			}
 			panic(unsupported("Sprintf with symbolic format"))
 		}
 		return sprintf(fr, f, args[1].([]value))
@@ -348,6 +351,9 @@ func init() {
 	reg("fmt.Errorf", func(fr *frame, args []value) value {
 		f, ok := concStr(args[0])
 		if !ok {
+			if len(args[1].([]value)) == 0 {
+				return errorValue(fr, args[0]) // symbolic text used as a message
+			}
 			panic(unsupported("Errorf with symbolic format"))
 		}
 		as := args[1].([]value)
